@@ -323,13 +323,17 @@ def main():
                 return tag
         return None
 
-    seen = set()
+    kn = {}
     for i, (l, real, stim) in confirmed.items():
         tag = known_tag(i)
         if tag:
-            rep.known(f"{tag} ({M[i]['template']}; e.g. stimulus {stim}: REF {real.get('ref_outputs')} HINTED {real.get('hinted_outputs')})"
-                      if tag not in seen else f"{tag} ({i})")
-            seen.add(tag)
+            kn.setdefault(tag, []).append((i, stim, real))
+    for tag, lst in kn.items():
+        i, stim, real = lst[0]
+        rep.known(f"{tag} {len(lst)} generated design(s) of template {M[i]['template']}, e.g. {' / '.join(prog[i][1:])} stimulus {stim}: "
+                  f"REF {real.get('ref_outputs')} HINTED {real.get('hinted_outputs')}")
+    for i, (l, real, stim) in confirmed.items():
+        if known_tag(i):
             continue
         if len(rep.violations) >= 6:
             continue
